@@ -627,6 +627,21 @@ pub mod router {
 			crate::routing::router::verif::first_hop_candidate_view(details);
 		(min, cap, scid, gscid, (fees.base_msat, fees.proportional_millionths), cltv)
 	}
+
+	/// `routing::router::sort_first_hop_channels` (private): sorts the caller's channels to one
+	/// peer in the router's order of preference. `used` lists `(scid, direction, msat)` entries of
+	/// the router's `used_liquidities` map (`CandidateHopId::Clear`).
+	pub fn sort_first_hop_channels(
+		channels: &mut Vec<&crate::ln::channel_state::ChannelDetails>, used: &[(u64, bool, u64)],
+		recommended_value_msat: u64, our_node_pubkey: &bitcoin::secp256k1::PublicKey,
+	) {
+		crate::routing::router::verif::sort_first_hop_channels(
+			channels,
+			used,
+			recommended_value_msat,
+			our_node_pubkey,
+		)
+	}
 }
 
 /// `latest_monitor_update_id` of a funded channel: the id of the last `ChannelMonitorUpdate` the
